@@ -144,8 +144,10 @@ def vtimezone_lines(defn, with_tzid=True):
     lines = ["BEGIN:VTIMEZONE"]
     if with_tzid:
         lines.append("TZID:" + defn["tzid"])
+    lines += defn.get("extras", [])          # legal properties that say nothing about offsets
     for ob in defn["obs"]:
         lines.append("BEGIN:" + ob["kind"])
+        lines += ob.get("extras", [])
         lines.append("DTSTART:" + fmt_dt(ob["dtstart"]))
         lines.append("TZOFFSETFROM:" + fmt_offset(ob["from"]))
         lines.append("TZOFFSETTO:" + fmt_offset(ob["to"]))
@@ -299,6 +301,14 @@ def gen_definition(rng, tzid, allow_inconsistent=False):
     if rng.random() < 0.3:
         rng.shuffle(obs)   # order of sub-components in the file is not significant
     defn = {"tzid": tzid, "obs": obs[:4]}
+    if rng.random() < 0.3:
+        # what real producers add: properties that must not influence the zone
+        defn["extras"] = rng.sample(["X-LIC-LOCATION:" + tzid.strip("/"), "LAST-MODIFIED:20200101T000000Z",
+                                     "TZURL:http://tz.example.com/" + tag, "X-MICROSOFT-CDO-TZID:4"], rng.randint(1, 3))
+        for ob in defn["obs"]:
+            if rng.random() < 0.4:
+                ob["extras"] = rng.sample(["COMMENT:generated", "X-NOTE:" + tag], rng.randint(1, 2))
+        meta["extras"] = True
     if not consistent(defn):
         if allow_inconsistent:
             meta["inconsistent"] = True
